@@ -594,6 +594,82 @@ Definition clean_dia (a : dia) : dia :=
 Definition tidyup_dia (a : dia) : dia :=
   {| a_nr := a_nr a; a_nc := a_nc a; a_diags := tidyup_diags (a_nr a) (a_diags a) |}.
 
+(* ------------------------------------------------- matmul with Dia operands *)
+(* matmul.pyx::matmul_dia_dense_dense(left, right, scale, out).  All three
+   code paths (square fast track with _matmul_diag_block, the two strided
+   walks) add, for every stored diagonal `off` in storage order and every row i
+   of the output with 0 <= i+off < ncols(left),
+        left.data[diag, i+off] * right[i+off, k]      into tmp[i, k];
+   tmp is `out` itself when scale == 1, else a zero matrix that is scaled
+   (imul_dense) or added to `out` (iadd_dense) at the end.  Gather form; the
+   value is written out + scale*sum, which is what every branch computes on
+   an exact carrier (0 + x = x, 1 * x = x). *)
+Definition dia_row_dot (diags : list (Z * list C)) (nc : nat) (i : nat) (g : nat -> C) : C :=
+  fold_left (fun acc d =>
+      let j := (Z.of_nat i + fst d)%Z in
+      if (0 <=? j)%Z && (j <? Z.of_nat nc)%Z
+      then cadd acc (cmul (nth (Z.to_nat j) (snd d) c0) (g (Z.to_nat j))) else acc)
+    diags c0.
+Definition out_guard (out : option dense) (nr nc : nat) : bool :=
+  match out with Some o => (d_nr o =? nr) && (d_nc o =? nc) | None => true end.
+Definition matmul_dia_dense (l : dia) (r : dense) (scale : C) (out : option dense)
+  : option dense :=
+  if negb (a_nc l =? d_nr r) || negb (out_guard out (a_nr l) (d_nc r)) then None
+  else
+    let ford := match out with Some o => d_fortran o | None => d_fortran r end in
+    Some {| d_nr := a_nr l; d_nc := d_nc r; d_fortran := ford;
+            d_data := tabulate (a_nr l) (d_nc r) ford (fun i k =>
+               cadd (match out with Some o => den_dense o i k | None => c0 end)
+                    (cmul scale (dia_row_dot (a_diags l) (a_nc l) i (fun j => den_dense r j k)))) |}.
+
+(* matmul_dense_dia_dense(left, right, scale, out): for every stored diagonal
+   `off` of right and every output column k with 0 <= k-off < nrows(right),
+        right.data[diag, k] * left[i, k-off]          into tmp[i, k] *)
+Definition dia_col_dot (diags : list (Z * list C)) (nr : nat) (k : nat) (g : nat -> C) : C :=
+  fold_left (fun acc d =>
+      let j := (Z.of_nat k - fst d)%Z in
+      if (0 <=? j)%Z && (j <? Z.of_nat nr)%Z
+      then cadd acc (cmul (nth k (snd d) c0) (g (Z.to_nat j))) else acc)
+    diags c0.
+Definition matmul_dense_dia (l : dense) (r : dia) (scale : C) (out : option dense)
+  : option dense :=
+  if negb (d_nc l =? a_nr r) || negb (out_guard out (d_nr l) (a_nc r)) then None
+  else
+    let ford := match out with Some o => d_fortran o | None => d_fortran l end in
+    Some {| d_nr := d_nr l; d_nc := a_nc r; d_fortran := ford;
+            d_data := tabulate (d_nr l) (a_nc r) ford (fun i k =>
+               cadd (match out with Some o => den_dense o i k | None => c0 end)
+                    (cmul scale (dia_col_dot (a_diags r) (a_nr r) k (fun j => den_dense l i j)))) |}.
+
+(* matmul_dia(left, right, scale): output offsets = sorted distinct sums
+   off_l + off_r inside (-nrows(left), ncols(right)); for every pair of stored
+   diagonals (left-major, storage order) and every column in [start, end)
+        data[index(off_l+off_r), col] += scale * left.data[dl, col-off_r] * right.data[dr, col]
+   with start / end computed from the three max / min expressions of the code *)
+Definition mdia_range (nrl ncl nrr ncr : nat) (ol or : Z) (col : nat) : bool :=
+  let oo := (ol + or)%Z in
+  let start := Z.max (Z.max (Z.max 0 ol + or) (Z.max 0 or)) (Z.max 0 oo) in
+  let stop := Z.min (Z.min (Z.min (Z.of_nat ncl) (Z.of_nat nrl + ol) + or)
+                           (Z.min (Z.of_nat ncr) (Z.of_nat nrr + or)))
+                    (Z.min (Z.of_nat ncr) (Z.of_nat nrl + oo)) in
+  (start <=? Z.of_nat col)%Z && (Z.of_nat col <? stop)%Z.
+Definition mdia_slot (l r : dia) (scale : C) (oo : Z) (col : nat) : C :=
+  fold_left (fun acc dl =>
+    fold_left (fun acc' dr =>
+      if ((fst dl + fst dr =? oo)%Z
+          && mdia_range (a_nr l) (a_nc l) (a_nr r) (a_nc r) (fst dl) (fst dr) col)
+      then cadd acc' (cmul (cmul scale (nth (Z.to_nat (Z.of_nat col - fst dr)) (snd dl) c0))
+                           (nth col (snd dr) c0))
+      else acc') (a_diags r) acc) (a_diags l) c0.
+Definition matmul_dia (l r : dia) (scale : C) : option dia :=
+  if negb (a_nc l =? a_nr r) then None
+  else
+    let sums := flat_map (fun dl => map (fun dr => (fst dl + fst dr)%Z) (a_diags r)) (a_diags l) in
+    let offs := filter (fun o => (- Z.of_nat (a_nr l) <? o)%Z && (o <? Z.of_nat (a_nc r))%Z)
+                       (fold_right zinsert [] sums) in
+    Some {| a_nr := a_nr l; a_nc := a_nc r;
+            a_diags := map (fun oo => (oo, map (mdia_slot l r scale oo) (seq 0 (a_nc r)))) offs |}.
+
 (* ---- predicates and tidy-up ------------------------------------------- *)
 (* properties.pyx::isequal_dia after clean_dia (1930127): walk of the two
    sorted offset lists; when either side has no diagonal left, the two tail
@@ -675,6 +751,36 @@ Definition tidyup_csr (m : csr) (inplace : bool) : csr * csr :=
   if inplace then (tidied, tidied) else (tidied, m).
 
 End Kernels.
+
+(* ------------------------------------------------------------------ pow *)
+(* pow.pyx::pow_csr / pow_dia / pow_dense share one loop (square-and-multiply
+   from the least significant bit):
+       pow = matrix; out = pow if n & 1 else None; n >>= 1
+       while n:  pow = pow @ pow
+                 if n & 1: out = pow if out is None else out @ pow
+                 n >>= 1
+   with n == 0 -> identity and n == 1 -> copy handled before.  M is the matrix
+   type, mul the format's matmul kernel. *)
+Section BinPow.
+Variable M : Type.
+Variable mul : M -> M -> M.
+Fixpoint pow_loop (fuel n : nat) (pw : M) (out : option M) : option M :=
+  match fuel with
+  | O => out
+  | S f =>
+      if n =? 0 then out
+      else let pw' := mul pw pw in
+           let out' := if Nat.odd n
+                       then Some (match out with None => pw' | Some o => mul o pw' end)
+                       else out in
+           pow_loop f (n / 2) pw' out'
+  end.
+Definition pow_model (ident : M) (x : M) (n : nat) : M :=
+  if n =? 0 then ident
+  else if n =? 1 then x
+  else match pow_loop n (n / 2) x (if Nat.odd n then Some x else None) with
+       | Some o => o | None => ident end.
+End BinPow.
 
 (* ------------------------------------------------------------ dispatcher *)
 (* convert.pyx::_converter and dispatch.pyx::_constructed_specialisation as
@@ -786,6 +892,16 @@ Definition G_trace_csr := trace_csr G g0 gadd.
 Definition G_trace_dense := trace_dense G g0 gadd.
 Definition G_add_csr := add_csr G g1 gadd gmul gis0 geqb (gtidy 1).
 Definition G_kron_csr := kron_csr G gmul.
+Definition G_mm (a b : csr G) : csr G :=
+  match matmul_csr G gadd gmul gis0 (gtidy 1) a b g1 with Some v => v | None => a end.
+Definition G_identity_csr (n : nat) : csr G :=
+  {| s_nr := n; s_nc := n; s_rows := map (fun i => [(i, g1)]) (seq 0 n) |}.
+Definition G_pow_csr (m : csr G) (n : nat) : option (csr G) :=
+  if negb (s_nr G m =? s_nc G m) then None
+  else Some (pow_model (csr G) G_mm (G_identity_csr (s_nr G m)) m n).
+Definition G_matmul_dia_dense := matmul_dia_dense G g0 gadd gmul.
+Definition G_matmul_dense_dia := matmul_dense_dia G g0 gadd gmul.
+Definition G_matmul_dia := matmul_dia G g0 gadd gmul.
 Definition G_dia_from_csr := dia_from_csr G g0.
 Definition G_add_dia := add_dia G g0 g1 gadd gmul gis0 geqb (gtidy 1).
 Definition G_clean_dia := clean_dia G g0 gadd.
